@@ -157,7 +157,10 @@ def case(chk, i):
     out = []
     for style in chk.rng("styles", i).sample(STYLES, chk.pick(2, 6)):
         flags = ["--default-enum-style", style] + rng.choice([[], ["--default-macro-constant-type", "signed"], ["--fit-macro-constant-types"],
-                                                                ["--translate-enum-integer-types"], ["--no-prepend-enum-name"]])
+                                                                ["--fit-macro-constant-types", "--default-macro-constant-type", "signed"],
+                                                                ["--fit-macro-constant-types", "--default-macro-constant-type", "unsigned"],
+                                                                ["--translate-enum-integer-types"], ["--no-prepend-enum-name"],
+                                                                ["--no-prepend-enum-name", "--translate-enum-integer-types"]])
         cname = "%s-%s" % (name, style)
         b = os.path.join(d, "b_%s.rs" % style)
         rc, so, se, _ = sh([build.BINDGEN, hdr] + flags + ["-o", b], timeout=120, cpu=100)
